@@ -16,6 +16,7 @@ import Osmium.Lemmas.RelMap
 import Osmium.Lemmas.Stash
 import Osmium.Generated.Consts
 import Osmium.Lemmas.SrcTie
+import Osmium.Generated.C15Shape
 
 namespace Osmium.C15
 
@@ -122,6 +123,67 @@ theorem relmap_index_size (adds : List (Nat × Nat)) (hr : InRange adds) :
       (recorded adds).buildMemberToParent.size = l.length :=
   index_size adds hr
 
+open Osmium.RelMap in
+/-- "Without duplicates" as a MULTISET statement, for every add-history — repeated pairs included, in any
+    order — and every index the three builders return: `for_each(k)` calls the function with `v` exactly once
+    if the pair was recorded and never otherwise (a value delivered twice would make the count 2). -/
+theorem relmap_lookup_each_once (adds : List (Nat × Nat)) (k : Nat) (hr : InRange adds) (hk : k < 2 ^ 64)
+    (v : Nat) :
+    ((recorded adds).buildMemberToParent.forEach k).count v = (if (k, v) ∈ adds then 1 else 0) ∧
+    ((recorded adds).buildParentToMember.forEach k).count v = (if (v, k) ∈ adds then 1 else 0) ∧
+    ((recorded adds).buildIndexes.1.forEach k).count v = (if (k, v) ∈ adds then 1 else 0) ∧
+    ((recorded adds).buildIndexes.2.forEach k).count v = (if (v, k) ∈ adds then 1 else 0) := by
+  have h1 := count_of_lookupExact (lookup_member_to_parent_full adds k hr hk) v
+  have h2 := count_of_lookupExact (lookup_parent_to_member_full adds k hr hk) v
+  have e : (k, v) ∈ adds.map swap ↔ (v, k) ∈ adds := by rw [mem_map_swap]; rfl
+  simp only [e] at h2
+  rw [build_variants_agree]
+  exact ⟨h1, h2, h1, h2⟩
+
+open Osmium.RelMap in
+/-- `size()` of every index is the number of DISTINCT recorded pairs, however often and in whatever order a
+    pair was added; `empty()` iff nothing was added. -/
+theorem relmap_index_sizes (adds : List (Nat × Nat)) (hr : InRange adds) :
+    (recorded adds).buildMemberToParent.size = (distinct adds).length ∧
+    (recorded adds).buildParentToMember.size = (distinct adds).length ∧
+    (recorded adds).buildIndexes.1.size = (distinct adds).length ∧
+    (recorded adds).buildIndexes.2.size = (distinct adds).length ∧
+    (recorded adds).buildMemberToParent.empty = adds.isEmpty ∧
+    (recorded adds).buildParentToMember.empty = adds.isEmpty :=
+  ⟨(index_sizes adds hr).1, (index_sizes adds hr).2.1, (index_sizes adds hr).2.2.1, (index_sizes adds hr).2.2.2,
+   (index_empty adds hr).1, (index_empty adds hr).2⟩
+
+open Osmium.RelMap in
+/-- The indexes are a function of the SET of recorded pairs: two add-histories that record the same pairs —
+    in any order, with any repetitions, hence with any sortedness of the internal vectors at build time —
+    yield identical indexes from each of the three builders. -/
+theorem relmap_index_canonical (a b : List (Nat × Nat)) (ha : InRange a) (hb : InRange b)
+    (h : ∀ p, p ∈ a ↔ p ∈ b) :
+    (recorded a).buildMemberToParent = (recorded b).buildMemberToParent ∧
+    (recorded a).buildParentToMember = (recorded b).buildParentToMember ∧
+    (recorded a).buildIndexes = (recorded b).buildIndexes :=
+  index_canonical a b ha hb h
+
+open Osmium.RelMap in
+/-- In particular adding a pair once more, at any position of the history, changes no index. -/
+theorem relmap_repeated_add_irrelevant (pre post : List (Nat × Nat)) (p : Nat × Nat)
+    (hr : InRange (pre ++ post)) (hp : p ∈ pre ++ post) :
+    (recorded (pre ++ p :: post)).buildMemberToParent = (recorded (pre ++ post)).buildMemberToParent ∧
+    (recorded (pre ++ p :: post)).buildParentToMember = (recorded (pre ++ post)).buildParentToMember ∧
+    (recorded (pre ++ p :: post)).buildIndexes = (recorded (pre ++ post)).buildIndexes := by
+  have hm : ∀ q, q ∈ pre ++ p :: post ↔ q ∈ pre ++ post := by
+    intro q
+    simp only [List.mem_append, List.mem_cons] at hp ⊢
+    constructor
+    · rintro (h | rfl | h)
+      · exact Or.inl h
+      · exact hp
+      · exact Or.inr h
+    · rintro (h | h)
+      · exact Or.inl h
+      · exact Or.inr (Or.inr h)
+  exact index_canonical _ _ (fun q hq => hr q ((hm q).1 hq)) hr hm
+
 /-! ## ItemStash -/
 
 open Osmium.Stash in
@@ -175,6 +237,20 @@ example : Has64 [(5, 7), (2 ^ 32 + 5, 1)] ∧ InRange [(5, 7), (2 ^ 32 + 5, 1)] 
   intro p hp
   simp at hp
   rcases hp with rfl | rfl <;> simp
+
+-- a history with a REPEATED pair added in sorted position (32- and 64-bit map, the witness of seed C15-6) is
+-- inside the domain of `relmap_lookup_each_once` / `relmap_index_sizes`; the parent 2^33+1 is delivered once
+open Osmium.RelMap in
+example : InRange [(1, 2 ^ 33 + 1), (1, 2 ^ 33 + 1), (2, 1)] ∧ ¬ [(1, 2 ^ 33 + 1), (1, 2 ^ 33 + 1), (2, 1)].Nodup ∧
+    ((recorded [(1, 2 ^ 33 + 1), (1, 2 ^ 33 + 1), (2, 1)]).buildMemberToParent.forEach 1).count (2 ^ 33 + 1) = 1 ∧
+    (recorded [(1, 2 ^ 33 + 1), (1, 2 ^ 33 + 1), (2, 1)]).buildIndexes.2.size = 2 := by
+  have hr : InRange [(1, 2 ^ 33 + 1), (1, 2 ^ 33 + 1), (2, 1)] := by
+    intro p hp
+    simp at hp
+    rcases hp with rfl | rfl <;> simp
+  refine ⟨hr, by decide, ?_, ?_⟩
+  · rw [(relmap_lookup_each_once _ 1 hr (by decide) _).1]; simp
+  · rw [(relmap_index_sizes _ hr).2.2.2.1]; decide
 
 -- a stash history with a removal and a collection after which the later handle still resolves
 open Osmium.Stash in
@@ -350,8 +426,121 @@ theorem src_tie_stash_add_cond (m r : Nat) :
   simp only [Src.RelationsMap.add_cond_fits_32bit, Src.RelationsMap.RelationsMapStash.add.max32, Bool.and_eq_true, le_iff, RelMap.max32]
   omega
 
+/-- the translator's RECORD of `flat_map` (every data member inside the subset becomes a field; the vector is an
+    opaque value with a `size`): both instantiations have the vector as their ONLY state — two flat_maps with the same
+    vector are the same object, so no method can behave differently on them (a flag such as "already sorted" would be
+    a second field and refute this) — and `size()` reads the vector. -/
+theorem src_tie_flat_map_state (a b : Src.RelationsMap.flat_map_u64_u32_u64_u32) (a' b' : Src.RelationsMap.flat_map_u64_u64_u64_u64) :
+    (a.m_map = b.m_map → a = b) ∧ (a'.m_map = b'.m_map → a' = b') ∧
+    Src.RelationsMap.flat_map_u64_u32_u64_u32.size a = a.m_map.size ∧
+    Src.RelationsMap.flat_map_u64_u64_u64_u64.size a' = a'.m_map.size := by
+  refine ⟨?_, ?_, rfl, rfl⟩
+  · cases a; cases b; intro h; simp_all
+  · cases a'; cases b'; intro h; simp_all
+
 example : Src.RelationsMap.flat_map_u64_u32_u64_u32.kv_pair.typed ⟨4294967295, 0⟩ = true := by decide
 
 end SrcTies
+
+/-! ### shape ties (tools/props/c15.py `regen_shape` → Osmium/Generated/C15Shape.lean): the container methods whose bodies
+    are calls of std algorithms on a `std::vector` are outside the translator's subset; their STATEMENT SEQUENCES are
+    read off clang's AST of the current source on every run (normalised: one string per statement) and compared here
+    with the sequences the model functions of `Model/RelMap.lean` / `Model/IdSet.lean` transcribe.  What each theorem
+    pins: no statement before / between / after the listed ones — in particular no early `return`, no branch, no
+    second data member a method could consult (the `*_fields` lists). -/
+
+section ShapeTies
+open Osmium.Generated
+
+/-- `flat_map` (both instantiations) and `RelationsMapStash` / `IdSetSmall` have no state besides their vectors:
+    nothing (no "already sorted" flag, no cached size) can make `sort_unique()` or a lookup depend on the HISTORY of
+    the object rather than on the content of the vector — `Model.RelMap.FlatMap` is a plain `List`. -/
+theorem src_shape_state :
+    C15Shape.flat_map32_fields = ["m_map"] ∧ C15Shape.flat_map64_fields = ["m_map"] ∧
+    C15Shape.stash_fields = ["m_map32", "m_map64"] ∧ C15Shape.small_fields = ["m_data"] :=
+  ⟨rfl, rfl, rfl, rfl⟩
+
+/-- `flat_map::set` appends one pair and does nothing else (`FlatMap.set`: `m ++ [(cast k, cast v)]`; the casts are
+    `src_tie_kv_pair_ctor`). -/
+theorem src_shape_flat_map_set :
+    C15Shape.flat_map32_set = ["m_map.emplace_back(key, value)"] ∧
+    C15Shape.flat_map64_set = ["m_map.emplace_back(key, value)"] :=
+  ⟨rfl, rfl⟩
+
+/-- `flat_map::sort_unique` is UNCONDITIONALLY sort; unique; erase-the-tail on the whole vector
+    (`FlatMap.sortUnique m = uniq (m.mergeSort kvLe)`; order and equality of the pairs are `src_tie_kv_pair_lt_*`,
+    `src_tie_kv_pair_eq`): no early return, no branch. -/
+theorem src_shape_flat_map_sort_unique :
+    C15Shape.flat_map32_sort_unique =
+      ["sort(m_map.begin(), m_map.end())", "let last = unique(m_map.begin(), m_map.end())", "m_map.erase(last, m_map.end())"] ∧
+    C15Shape.flat_map64_sort_unique = C15Shape.flat_map32_sort_unique :=
+  ⟨rfl, rfl⟩
+
+/-- `flip_in_place` swaps key and value of every pair, `flip_copy` sets (value, key) of every pair into a fresh map
+    (`FlatMap.flip`); `clear` empties the vector; `get` is one `equal_range` over the whole vector with the key-only
+    comparator and the probe `kv_pair{key}` (`FlatMap.get`); `empty`/`size` read the vector. -/
+theorem src_shape_flat_map_flip_clear_get :
+    C15Shape.flat_map32_flip_in_place = ["for p in m_map", "swap(p.key, p.value)", "endfor"] ∧
+    C15Shape.flat_map64_flip_in_place = C15Shape.flat_map32_flip_in_place ∧
+    C15Shape.flat_map32_flip_copy =
+      ["let map = flat_map{}", "map.reserve(m_map.size())", "for p in m_map", "map.set(p.value, p.key)", "endfor", "return map"] ∧
+    C15Shape.flat_map64_flip_copy = C15Shape.flat_map32_flip_copy ∧
+    C15Shape.flat_map32_clear = ["m_map.clear()", "m_map.shrink_to_fit()"] ∧
+    C15Shape.flat_map32_get =
+      ["return equal_range(m_map.begin(), m_map.end(), kv_pair{key}, lambda{return (lhs.key < rhs.key)})"] ∧
+    C15Shape.flat_map64_get = C15Shape.flat_map32_get ∧
+    C15Shape.flat_map32_empty = ["return m_map.empty()"] ∧ C15Shape.flat_map64_empty = ["return m_map.empty()"] ∧
+    C15Shape.flat_map32_size = ["return m_map.size()"] ∧ C15Shape.flat_map64_size = ["return m_map.size()"] :=
+  ⟨rfl, rfl, rfl, rfl, rfl, rfl, rfl, rfl, rfl, rfl, rfl⟩
+
+/-- `RelationsMapStash::add` (`Stash.add`; the condition is `src_tie_stash_add_cond`) and `append32to64`
+    (`RelMap.append32to64`: sort_unique the 64-bit map, set every 32-bit pair into it, sort_unique again). -/
+theorem src_shape_stash_add_append :
+    C15Shape.stash_add =
+      ["let max32 = max()", "if ((member_id <= max32) && (relation_id <= max32))", "m_map32.set(member_id, relation_id)",
+       "else", "m_map64.set(member_id, relation_id)", "endif"] ∧
+    C15Shape.stash_append32to64 =
+      ["map64.sort_unique()", "map64.reserve((map64.size() + map32.size()))", "for item in map32",
+       "map64.set(item.key, item.value)", "endfor", "map64.sort_unique()", "map32.clear()"] ∧
+    C15Shape.stash_empty = ["return (m_map32.empty() && m_map64.empty())"] ∧
+    C15Shape.stash_size = ["return (m_map32.size() + m_map64.size())"] ∧
+    C15Shape.stash_sizes = ["return make_pair(m_map32.size(), m_map64.size())"] :=
+  ⟨rfl, rfl, rfl, rfl, rfl⟩
+
+/-- the three builders (`Stash.buildMemberToParent`, `Stash.buildParentToMember`, `Stash.buildIndexes`) -/
+theorem src_shape_stash_builders :
+    C15Shape.stash_build_member_to_parent_index =
+      ["m_map32.sort_unique()", "if m_map64.empty()", "return RelationsMapIndex{move(m_map32)}", "endif",
+       "append32to64(m_map32, m_map64)", "return RelationsMapIndex{move(m_map64)}"] ∧
+    C15Shape.stash_build_parent_to_member_index =
+      ["m_map32.flip_in_place()", "m_map32.sort_unique()", "if m_map64.empty()", "return RelationsMapIndex{move(m_map32)}", "endif",
+       "m_map64.flip_in_place()", "append32to64(m_map32, m_map64)", "return RelationsMapIndex{move(m_map64)}"] ∧
+    C15Shape.stash_build_indexes =
+      ["let reverse_map32 = m_map32.flip_copy()", "reverse_map32.sort_unique()", "m_map32.sort_unique()", "if m_map64.empty()",
+       "return RelationsMapIndexes{move(m_map32), move(reverse_map32)}", "endif", "let reverse_map64 = m_map64.flip_copy()",
+       "append32to64(reverse_map32, reverse_map64)", "append32to64(m_map32, m_map64)",
+       "return RelationsMapIndexes{move(m_map64), move(reverse_map64)}"] :=
+  ⟨rfl, rfl, rfl⟩
+
+/-- `IdSetSmall<uint64_t>`: `set` (`Small.set`: append unless equal to the last element), `get` (linear `find`),
+    `get_binary_search`, `sort_unique` (unconditional sort; unique; erase — `Small.sortUnique`), `merge_sorted`
+    (one `set_union` of the two whole vectors into a fresh vector that replaces `m_data` — `Small.mergeSorted`: no
+    fast path), `clear`, `size`, `empty`. -/
+theorem src_shape_idsetsmall :
+    C15Shape.small_set = ["if (m_data.empty() || (m_data.back() != id))", "m_data.push_back(id)", "endif"] ∧
+    C15Shape.small_get = ["let it = find(m_data.cbegin(), m_data.cend(), id)", "return operator!=(it, m_data.cend())"] ∧
+    C15Shape.small_get_binary_search = ["return binary_search(m_data.cbegin(), m_data.cend(), id)"] ∧
+    C15Shape.small_sort_unique =
+      ["sort(m_data.begin(), m_data.end())", "let last = unique(m_data.begin(), m_data.end())", "m_data.erase(last, m_data.end())"] ∧
+    C15Shape.small_merge_sorted =
+      ["let new_data = vector{}", "new_data.reserve((m_data.size() + other.m_data.size()))",
+       "set_union(m_data.cbegin(), m_data.cend(), other.m_data.cbegin(), other.m_data.cend(), back_inserter(new_data))",
+       "swap(new_data, m_data)"] ∧
+    C15Shape.small_clear = ["m_data.clear()"] ∧ C15Shape.small_size = ["return m_data.size()"] ∧
+    C15Shape.small_empty = ["return m_data.empty()"] :=
+  ⟨rfl, rfl, rfl, rfl, rfl, rfl, rfl, rfl⟩
+
+end ShapeTies
+
 
 end Osmium.C15
